@@ -36,8 +36,8 @@ BOUNDS = {
     "thorough": "all 256 key shapes for P=3, plus P=4 with all 16 keys and with every 15-key shape; counts unbounded",
 }
 EXPLANATION = (
-    "The real report.py functions are executed on symbolic exact fractions of z3 integer polynomials over the line "
-    "counts (one symbolic Int >= 0 per key); every branch and every division forks on a z3 feasibility query. For each "
+    "The real report.py functions are executed on symbolic exact fractions of z3 real polynomials over the line "
+    "counts (one symbolic real >= 0 per key, which covers all integers); every branch and every division forks on a z3 feasibility query. For each "
     "leaf the metric's definition (built independently from the key shape) is posed as one cross-multiplied polynomial "
     "(in)equality and discharged as an unsat query; sat models are replayed on the real functions with Python ints and "
     "compared with fractions.Fraction arithmetic."
